@@ -433,6 +433,9 @@ impl Module {
                 &mut inline_size,
                 default_set,
             );
+
+            #[cfg(trark_rssl_verif)]
+            verif_alloc::record(&used_slots, &inline_size);
         }
 
         // Make an inline constant buffer to store bindings that can be stored as constants
@@ -461,5 +464,41 @@ impl Default for AssignBindingsParams {
             metal_slot_layout: false,
             static_samplers_have_slots: true,
         }
+    }
+}
+
+/// Verification hook: exposes the allocator state carried between declarations in assign_api_bindings
+#[cfg(trark_rssl_verif)]
+pub mod verif_alloc {
+    use std::cell::RefCell;
+    use std::collections::HashMap;
+
+    /// (sorted (group, next free slot) pairs, sorted (group, inline constant bytes) pairs)
+    pub type AllocSnapshot = (Vec<(u32, u32)>, Vec<(u32, u32)>);
+
+    thread_local! {
+        static TRACE: RefCell<Option<Vec<AllocSnapshot>>> = const { RefCell::new(None) };
+    }
+
+    /// Start recording: one snapshot after every root definition processed by assign_api_bindings
+    pub fn start_trace() {
+        TRACE.with(|t| *t.borrow_mut() = Some(Vec::new()));
+    }
+
+    /// Stop recording and return the snapshots
+    pub fn take_trace() -> Vec<AllocSnapshot> {
+        TRACE.with(|t| t.borrow_mut().take().unwrap_or_default())
+    }
+
+    pub(super) fn record(used_slots: &HashMap<u32, u32>, inline_size: &HashMap<u32, u32>) {
+        TRACE.with(|t| {
+            if let Some(trace) = t.borrow_mut().as_mut() {
+                let mut slots = used_slots.iter().map(|(k, v)| (*k, *v)).collect::<Vec<_>>();
+                slots.sort();
+                let mut sizes = inline_size.iter().map(|(k, v)| (*k, *v)).collect::<Vec<_>>();
+                sizes.sort();
+                trace.push((slots, sizes));
+            }
+        });
     }
 }
